@@ -164,6 +164,9 @@ namespace
             case 2: // ipv4-mapped
                 g[i] = (i < 5) ? 0 : (i == 5 ? 0xffff : uint16_t(c.u16()));
                 break;
+            case 3: // full width: every group has four hex digits, the text is as long as an IPv6 literal gets (39)
+                g[i] = uint16_t(0x1000 + c.u16() % 0xF000);
+                break;
             default:
                 g[i] = c.coin(110) ? 0 : (c.coin(128) ? uint16_t(c.u16()) : uint16_t(c.pick(16)));
             }
